@@ -68,7 +68,10 @@ def replay_wiring(n, direction, what, infend):
                 return bool(np.any(np.abs(ng.points - tf.transform(xs2)) > 1e-12 * np.maximum(1, np.abs(ng.points)))), info
             if what == "domain":
                 l2, h2 = ng.domain
-                return bool(l2 > h2 or np.any(ng.points < l2 - 1e-7) or np.any(ng.points > h2 + 1e-7)), info
+                img = np.sort(tf.transform(np.array(dom, dtype=float)))
+                info["ordered_image_of_old_domain"] = img.tolist()
+                wrong_image = not np.allclose(np.array([l2, h2], dtype=float), img, rtol=1e-9, atol=1e-12)
+                return bool(wrong_image or l2 > h2 or np.any(ng.points < l2 - 1e-7) or np.any(ng.points > h2 + 1e-7)), info
         return None, {}
     return replay
 
@@ -199,8 +202,10 @@ def replay_contract(cfg, what):
                 d = tf.deriv(np.array([x1, x2]))
                 return bool(d[0] * d[1] <= 0), dict(params=P, x1=x1, x2=x2, deriv=[float(v) for v in d])
             if what == "ends":
-                img = tf.transform(np.array(tf.domain, dtype=float))
-                return None, dict(params=P, image=[float(v) for v in img])
+                img = np.sort(tf.transform(np.array(tf.domain, dtype=float)))
+                cod = [1e16 if (isinstance(v, float) and np.isinf(v) and v > 0) else float(v) for v in tf.codomain]
+                bad = not np.allclose(img, cod, rtol=1e-9, atol=1e-12)
+                return bad, dict(params=P, sorted_image_of_domain_ends=[float(v) for v in img], codomain=cod)
         return None, {}
     return replay
 
@@ -265,12 +270,57 @@ def job_contract(ctx: Ctx, cfg):
             ctx.note("half-line domain: end point +inf not evaluated")
             continue
         (a, b), cod = p.result
-        ctx.holds("image of (-1, 1) is ascending and finite", a <= b, p.pc, key=key + ":ends")
-        ctx.eq("lower image end == codomain[0]", a, cod[0], p.pc, key=key + ":ends")
+        RE = replay_contract(cfg, "ends")
+        ctx.holds("image of (-1, 1) is ascending and finite", a <= b, p.pc, key=key + ":ends", replay=RE)
+        ctx.eq("lower image end == codomain[0]", a, cod[0], p.pc, key=key + ":ends", replay=RE)
         if isinstance(cod[1], float) and np.isinf(cod[1]):
-            (ctx.ok if (not isinstance(b, Sym) and float(b) == 1e16) else ctx.fail)("infinite image end is represented by 1e16 when trimming is on", detail=repr(b), key=key + ":ends")
+            (ctx.ok if (not isinstance(b, Sym) and float(b) == 1e16) else ctx.fail)("infinite image end is represented by 1e16 when trimming is on", detail=repr(b), key=key + ":ends", replay=RE)
         else:
-            ctx.eq("upper image end == codomain[1]", b, cod[1], p.pc, key=key + ":ends")
+            ctx.eq("upper image end == codomain[1]", b, cod[1], p.pc, key=key + ":ends", replay=RE)
+
+
+def job_contract_endnode(ctx: Ctx, cfg):
+    """closed rules put a node on the finite end point x = -1: the Jacobian used there must be the derivative of the map there."""
+    rt, bg = _mods()
+    npproxy.install(rt)
+    npproxy.install(bg)
+    e = ctx.engine
+    P = {k: real(k) for k in cfg["pnames"]}
+    x = real("x")
+    e.assume(*cfg["assume"](P))
+    ctx.encoded(getattr(rt, cfg["cls"]))
+    key = cfg["cls"] + ":contract:end-node"
+
+    def replay(m):
+        with C03.unpatched(rt, bg):
+            Pf = {k: float(m.get(k, 1.0)) for k in cfg["pnames"]}
+            tf = cfg["mk"](rt, Pf)
+            h = 1e-6
+            t = lambda v: float(tf.transform(np.array([v]))[0])
+            fd = (-3 * t(-1.0) + 4 * t(-1.0 + h) - t(-1.0 + 2 * h)) / (2 * h)
+            got = float(tf.deriv(np.array([-1.0]))[0])
+            return abs(got - fd) > 1e-4 * max(abs(fd), abs(got), 1e-12), dict(params=Pf, deriv_at_minus_one=got, one_sided_finite_difference=fd)
+
+    def body():
+        tf = cfg["mk"](rt, P)
+        if tf.domain[0] != -1:
+            return None
+        return tf.transform(arr([x]))[0], tf.deriv(arr([K(-1)]))[0]
+    for p in e.run(body):
+        ctx.paths += 1
+        if p.exc is not None:
+            ctx.fail("deriv at the end node:no-exception", f"{type(p.exc).__name__}: {p.exc}", key=key, replay=replay, model=ctx.model_for(p.pc) or {})
+            continue
+        if p.result is None:
+            continue
+        t, d_end = p.result
+        try:
+            want = dag.subst(dag.diff(node_of(t), x.n), {x.n: dag.const(-1)})
+        except ZeroDivisionError:
+            ok = not isinstance(d_end, Sym)        # singular end (e.g. MultiExp): the code must report an infinite / trimmed value, not a finite number
+            (ctx.ok if ok else ctx.fail)("Jacobian at a singular end point is reported as infinite", detail=repr(d_end), key=key, replay=replay)
+            continue
+        ctx.eq("deriv(-1) == d transform/dx at x = -1 (Jacobian for a node on the closed end point)", d_end, Sym(want), p.pc, replay=replay, key=key)
 
 
 def jobs(tier):
@@ -281,6 +331,7 @@ def jobs(tier):
                 js.append(Job(f"wiring/n={n}/{direction}/{infend or 'finite'}", job_wiring, n, direction, infend))
     for cfg in C03.configs(tier):
         js.append(Job(f"contract/{cfg['name']}", job_contract, cfg))
+        js.append(Job(f"contract-endnode/{cfg['name']}", job_contract_endnode, cfg))
     only = os.environ.get("SYMGRID_ONLY")
     if only:
         js = [j for j in js if only in j.name]
